@@ -124,8 +124,8 @@ func CheckCoherence(c *checker, key string, o DocObs) {
 		if !d.Row && o.Expiry.Err != "missing" {
 			c.add("C01", f("GetExpiry"), "GetExpiry=(%d,%q) for an absent key", o.Expiry.Exp, o.Expiry.Err)
 		}
-		if d.Row && !(o.Expiry.Err == "missing" || (o.Expiry.Err == "" && o.Expiry.Exp == d.Exp)) { // R2
-			c.add("C01", f("GetExpiry"), "GetExpiry=(%d,%q) for a tombstone with stored exp %d", o.Expiry.Exp, o.Expiry.Err, d.Exp)
+		if d.Row && o.Expiry.Err != "missing" { // C01 lists GetExpiry among the reads that report a deleted key as missing
+			c.add("C01", f("GetExpiry"), "GetExpiry=(%d,%q) for a tombstone (stored exp %d): a deleted key reads as missing", o.Expiry.Exp, o.Expiry.Err, d.Exp)
 		}
 	}
 	// --- GetWithXattrs / GetXattrs
@@ -177,19 +177,27 @@ func CheckCoherence(c *checker, key string, o DocObs) {
 		if json.Unmarshal(d.Body, &doc) == nil && doc != nil {
 			for p, got := range o.Sub {
 				var cur any = doc
-				found := true
+				found, null := true, false
 				for _, part := range strings.Split(p, ".") {
 					m, ok := cur.(map[string]any)
 					if !ok {
 						found = false
 						break
 					}
-					if cur, ok = m[part]; !ok || cur == nil {
+					if cur, ok = m[part]; !ok {
 						found = false
 						break
 					}
+					if cur == nil {
+						null = true // present with value null: `null` and "no such path" are both accepted (R2)
+						break
+					}
 				}
-				if found {
+				if null {
+					if got.Err == "" && strings.TrimSpace(string(got.Body)) != "null" {
+						c.add("C18", f("GetSubDocRaw."+p), "GetSubDocRaw(%q) returned %s for a property whose value is null", p, got.Body)
+					}
+				} else if found {
 					want, _ := json.Marshal(cur)
 					if got.Err != "" || !JSONEqual(want, got.Body) || got.Cas != d.Cas {
 						c.add("C18", f("GetSubDocRaw."+p), "GetSubDocRaw(%q)=(%s, cas %d, err %q), the document's property is %s (cas %d)", p, got.Body, got.Cas, got.Err, want, d.Cas)
@@ -426,6 +434,10 @@ func CheckKVStep(op Op, env Env, pre, post KVObs, res Result) []Violation {
 		}
 	} else {
 		// ---- success: post-state
+		if (op.EP == "WriteSubDoc" || op.EP == "SubdocInsert") && postDoc.Row && rowString(preRow) == rowString(postRow) {
+			// "equivalent to atomically reading the document, setting the property and writing it back"
+			c.add("C18", "success-without-write", "the call reported success (CAS %d) but the document was not written: %s", res.Cas, rowString(postRow))
+		}
 		if !postDoc.Row {
 			c.add("C01", "row", "call succeeded but no document is stored")
 		} else {
